@@ -81,7 +81,7 @@ def next_op(rng, runner, weights=None, allow=None, reuse=0.35) -> dict:
         packs = sorted(int(x) for x in rc.raw().pack_names_valid())
         if not packs:
             return {'op': 'reopen', 'on': on}
-        return {'op': 'repackOne', 'on': on, 'p': rng.choice(packs), 'mode': rng.choice(MODES)}
+        return {'op': 'repackOne', 'on': on, 'p': rng.choice(packs), 'mode': rng.choice(MODES), 'callback': rng.random() < 0.25}
     if kind == 'addPacked':
         n = rng.choice([1, 1, 2, 3, 4, 6])
         cs = [pick_content(rng, runner, rc, reuse) for _ in range(n)]
@@ -102,10 +102,11 @@ def next_op(rng, runner, weights=None, allow=None, reuse=0.35) -> dict:
                     'via': 'nested', 'inner': [rng.randrange(len(runner.pool)) for _ in range(rng.choice([1, 2]))]}
         return {'op': 'addPacked', 'on': on, 'cs': cs, 'compress': rng.random() < 0.5, 'no_holes': no_holes,
                 'read_twice': rng.random() < 0.5, 'via': rng.choice(['bytes', 'streams', 'single', 'lazy', 'short']),
-                'short': rng.choice([1, 5, 64, 9000])}
+                'short': rng.choice([1, 5, 64, 9000]), 'callback': rng.random() < 0.2}
     if kind == 'packAll':
         mode = rng.choice(MODES + [True, False])
-        return {'op': 'packAll', 'on': on, 'mode': mode, 'validate': rng.random() < 0.7, 'clean': rng.random() < 0.4}
+        return {'op': 'packAll', 'on': on, 'mode': mode, 'validate': rng.random() < 0.7, 'clean': rng.random() < 0.4,
+                'callback': rng.random() < 0.25}
     if kind == 'clean':
         return {'op': 'clean', 'on': on, 'vacuum': rng.random() < 0.3}
     if kind == 'delete':
@@ -115,7 +116,7 @@ def next_op(rng, runner, weights=None, allow=None, reuse=0.35) -> dict:
             ks.append('f' * 40)  # a key of no content at all
         return {'op': 'delete', 'on': on, 'ks': ks}
     if kind == 'repack':
-        return {'op': 'repack', 'on': on, 'mode': rng.choice(MODES)}
+        return {'op': 'repack', 'on': on, 'mode': rng.choice(MODES), 'callback': rng.random() < 0.25}
     if kind == 'loosen':
         return {'op': 'loosen', 'on': on, 'k': pick_key(rng, runner, rc, present=0.85)}
     if kind == 'reopen':
